@@ -24,6 +24,19 @@ STEER_6 = ('{n} changes have already been proposed for this property by other de
            'languages with inheritance chains, abstract types, reflexive or same-named associations. Each of your '
            'three changes should need a different kind of trigger.')
 
+STEER_7 = ('{n} changes have already been proposed for this property by other developers (listed below). '
+           'Do NOT repeat them or close variants. This time look at: (1) functions and branches that NONE of the '
+           'listed proposals touches - read the whole of the relevant modules first and list for yourself which '
+           'functions the proposals cover; (2) getters that hand out internal lists / dicts (a caller that keeps or '
+           'edits what it was given), and setters that keep a reference to what the caller passed in; (3) counters '
+           'and off-by-one boundaries (next ids after explicit / negative / removed ids, maximum multiplicities, '
+           'first and last element of a list); (4) state kept on classes or modules rather than on instances; '
+           '(5) iteration over sets or dict views whose order the result then depends on; (6) two-step protocols '
+           'where step one succeeds and step two is refused (what is left behind?); (7) operations applied to an '
+           'object right after it was loaded from a file, copied or regenerated, where some field is still in its '
+           'file / constructor form (string vs number, list vs tuple, None vs empty). Prefer changes that a '
+           'reviewer would wave through. Each of your three changes should need a different kind of trigger.')
+
 STEER = ('{n} changes have already been proposed for this property by other developers (listed below). '
          'Do NOT repeat them or close variants. Look for what they have NOT touched: other functions and '
          'code paths that the property depends on indirectly (helpers in other modules, constructors, '
@@ -57,7 +70,7 @@ def main():
                 .replace('__ID__', pid).replace('__TITLE__', p['title'])
                 .replace('__STATEMENT__', p['statement']).replace('__QUANT__', p['quantifier']['text'])
                 .replace('__N__', '3'))
-        text += '\n' + (STEER_6 if os.environ.get('SEED_STEER') == '6' else STEER).format(n=len(prev)) + '\n' + '\n'.join('- ' + x for x in prev) + '\n'
+        text += '\n' + ({'6': STEER_6, '7': STEER_7}.get(os.environ.get('SEED_STEER'), STEER)).format(n=len(prev)) + '\n' + '\n'.join('- ' + x for x in prev) + '\n'
         os.makedirs(os.path.join(out, pid), exist_ok=True)
         with open(os.path.join(out, f'prompt-{pid}.txt'), 'w') as f:
             f.write(text)
